@@ -16,7 +16,7 @@ from .. import build, impl, model, report, sexp
 from ..sexp import Q
 
 MANIFEST = dict(
-    text=('Theorems C05_roundtrip_repaired / C05_roundtrip_trees / C05_layout_irrelevant (Props/C05.v): for every printable '
+    text=('Theorems C05_roundtrip / C05_roundtrip_pinned / C05_roundtrip_trees / C05_layout_irrelevant / C13_printer_positions_true (Props/C05.v): for every printable '
           'grammar tree g (Printer.wf) and every layout (blanks, newlines, form feeds, # comments at every token boundary, '
           '= or ::=, final ;, plain or escaped dots, redundant parentheses around items), the Gallina model of Grammar::parse '
           'applied to Printer.text g lay returns g with every span equal to the position the printer gave the construct '
@@ -398,6 +398,15 @@ def run(ctx, res):
     dumps = impl.dump(exe, texts, ['parse'], ['bash'])
     mouts = model.run(['parse %s' % sexp.quote(as_latin(t)) for t in texts])
 
+    # how close is Printer.wf to the parser's image?  (every tree Rust returns for raw text)
+    img_idx = [k for k, (c0, d0) in enumerate(zip(cases, dumps))
+               if c0['kind'] == 'raw' and d0['bash'].get('PARSE', '').startswith('(ok ')]
+    img_out = model.run(['wf %s' % d0['bash']['PARSE'][4:-1] for d0 in (dumps[k] for k in img_idx)])
+    img_bad = []
+    for k, o in zip(img_idx, img_out):
+        if o != '(wf 1)':
+            img_bad.append((as_latin(cases[k]['text']), dumps[k]['bash']['PARSE']))
+
     res.rule = ('printed: every tree with <= %d nodes (unary opt/many/dd, binary+ternary seq/alt/fb/sub over 4 leaf kinds) x 3 layouts, '
                 'a sample of the next size, random deep grammars (all statement kinds), every regular/escapable character in 4 literal '
                 'positions, descriptions over printable ASCII, random literals x contexts; malformed: mutations of printed texts '
@@ -478,3 +487,12 @@ def run(ctx, res):
     res.extra['generated_trees_not_printable'] = notwf
     res.extra['trees_with_several_layouts'] = multi
     res.extra['span_reset_instances'] = nspan_known
+    # trees in the parser's image that the printer does not cover (a limit of the specification,
+    # not of the implementation): literals starting with '#' inside a word are the known corner
+    hash_corner = [t for t, pr in img_bad if '(lit "#' in pr]
+    other = [dict(text=t, parse=pr[:400]) for t, pr in img_bad if '(lit "#' not in pr]
+    res.extra['image_trees_checked'] = len(img_idx)
+    res.extra['image_not_printable_hash_literal'] = len(hash_corner)
+    res.extra['image_not_printable_other'] = other[:5]
+    if other:
+        res.notes.append('%d accepted text(s) parse to a tree outside Printer.wf (specification coverage, not a defect)' % len(other))
